@@ -159,14 +159,33 @@ def CGraph.merged (G : CGraph) (n1 n2 : Nat) (m : CNode) : CGraph :=
     nodes := (G.nodes.filter (fun x => x.id != n2)).map (fun x => if x.id == n1 then m else x)
     stmts := G.stmts }
 
+def Cond.isLeaf : Cond → Bool
+  | .leaf _ _ _ => true
+  | .sc _ _ _ _ => false
+
+/-- the third conjunct of "may this node become the second operand": a test on the CURRENT graph, the candidate's
+    id and the candidate node -/
+abbrev Guard := CGraph → Nat → CNode → Bool
+
+/-- the repaired code: `… and then is not graph.entry`, `graph.entry` read at the point of the test.  MergeNodes
+    reassigns `graph.entry` to the merged node (which keeps the first operand's place, `CGraph.merged`), so the
+    comparison is with the entry as it is after every earlier merge. -/
+def guardCurrent : Guard := fun G n _ => n != G.entry
+/-- the code as it was: no test -/
+def guardNone : Guard := fun _ _ _ => true
+/-- a variant that compares with the entry OBJECT captured before the loop (`e0`): the original entry object is a
+    plain CondBlock; once it has been merged as first operand the node in its place is a new ShortCircuitBlock,
+    which is not that object, so the test lets it through (kept for the refutation `stale_entry_guard_refuted`) -/
+def guardInitial (e0 : Nat) : Guard := fun _ n x => !(n == e0 && x.c.isLeaf)
+
 /-- second half of the loop body: try to merge `node` with its `false` successor -/
-def mergeEls (guardEntry : Bool) (G : CGraph) (n1 : Nat) (nd : CNode) : Option (Nat × CGraph) :=
+def mergeElsG (ok : Guard) (G : CGraph) (n1 : Nat) (nd : CNode) : Option (Nat × CGraph) :=
   let thn := nd.t
   let els := nd.f
   match G.look els with
   | none => none
   | some en =>
-    if (G.preds els).length == 1 && (!guardEntry || els != G.entry) then
+    if (G.preds els).length == 1 && ok G els en then
       if n1 == en.f || n1 == en.t then none
       else if en.f == thn then      -- !node && e
         some (els, G.merged n1 els ⟨n1, .sc true true nd.c en.c, en.t, thn⟩)
@@ -178,7 +197,7 @@ def mergeEls (guardEntry : Bool) (G : CGraph) (n1 : Nat) (nd : CNode) : Option (
 /-- the body of `for node in graph.post_order()` in short_circuit_struct for `node = n1`:
     `some (n2, G')` when it merges n1 with n2.  `guardEntry` = the repaired code (`… and then is not graph.entry`);
     `false` = the code as it was (kept for the refutation theorem). -/
-def mergeAt (guardEntry : Bool) (G : CGraph) (n1 : Nat) : Option (Nat × CGraph) :=
+def mergeAtG (ok : Guard) (G : CGraph) (n1 : Nat) : Option (Nat × CGraph) :=
   match G.look n1 with
   | none => none
   | some nd =>
@@ -188,24 +207,28 @@ def mergeAt (guardEntry : Bool) (G : CGraph) (n1 : Nat) : Option (Nat × CGraph)
     else
       match G.look thn with
       | some tn =>
-        if (G.preds thn).length == 1 && (!guardEntry || thn != G.entry) then
+        if (G.preds thn).length == 1 && ok G thn tn then
           if n1 == tn.t || n1 == tn.f then none
           else if tn.f == els then        -- node && t
             some (thn, G.merged n1 thn ⟨n1, .sc false true nd.c tn.c, tn.t, els⟩)
           else if tn.t == els then        -- !node || t
             some (thn, G.merged n1 thn ⟨n1, .sc true false nd.c tn.c, els, tn.f⟩)
           else none
-        else mergeEls guardEntry G n1 nd
-      | none => mergeEls guardEntry G n1 nd
+        else mergeElsG ok G n1 nd
+      | none => mergeElsG ok G n1 nd
 
 /-- replay a sequence of merges (first operand, second operand) as observed on the real run;
     `none` = the model would not have merged there (or not with that node) -/
-def replay (guardEntry : Bool) (G : CGraph) : List (Nat × Nat) → Option CGraph
+def replayG (ok : Guard) (G : CGraph) : List (Nat × Nat) → Option CGraph
   | [] => some G
   | (n1, n2) :: rest =>
-    match mergeAt guardEntry G n1 with
-    | some (m2, G') => if m2 == n2 then replay guardEntry G' rest else none
+    match mergeAtG ok G n1 with
+    | some (m2, G') => if m2 == n2 then replayG ok G' rest else none
     | none => none
+
+/-- `true` = the repaired code (guard against the current entry), `false` = the code as it was -/
+abbrev mergeAt (guardEntry : Bool) := mergeAtG (if guardEntry then guardCurrent else guardNone)
+abbrev replay (guardEntry : Bool) := replayG (if guardEntry then guardCurrent else guardNone)
 
 /-! ## routing -/
 
